@@ -6,11 +6,14 @@
     * the hypothesis `TapSigHashOk` of the central theorem (`tapDigest_defined_iff`): the BIP341 reference digest is
       absent exactly where `ScriptSpec.tapHashTypeDefined` says so;
     * property C02's MODEL of gocoin's Tx.SignatureHash / WitnessSigHash / TaprootSigHash (`c02_*_is_ref`): the model
-      returns the reference digests (from Props.C02's preimage theorems).
+      returns the reference digests (from Props.C02's preimage theorems);
+    * that model AS a crypto instance (`c02Instance`): it satisfies `SigHashIsRef` and — for every annex-hash argument,
+      annex hash of this witness or not — `TapSigHashOk` (`c02Instance_isRef`, `c02Instance_tapOk`).
 -/
 import GocoinV.Spec.ScriptSigRef
 import GocoinV.Spec.Script
 import GocoinV.Props.C02
+import GocoinV.Proofs.C01Checksig
 namespace GocoinV.Proofs.C01
 open GocoinV GocoinV.Script GocoinV.Script.SigRef
 
@@ -152,5 +155,83 @@ theorem c02_tap_is_ref (H : Bytes → Bytes) (F : FullTx) (hs : F.spent.length =
     have := key none
     rw [taproot_keypath_ignores_ext]
     simpa [tapDigest, execDataOf, annexHash_eq, taproot_keypath_ignores_ext H F.tx F.spent c _ [] 0xffffffff] using this
+
+/-! ### property C02's model as a crypto INSTANCE of the C01 theorems: it satisfies `SigHashIsRef` and `TapSigHashOk` -/
+
+section C02Instance
+open GocoinV.SigHash
+
+theorem hlen0 (H : Bytes → Bytes) (hsha : ∀ b, H b ≠ []) (b : Bytes) : ((H b).length == 0) = false := by
+  cases hb : H b with
+  | nil => exact absurd hb (hsha b)
+  | cons x r => rfl
+
+/-- whether `Tx.TaprootSigHash` (C02's model, as fixed) returns a digest does not depend on the annex hash it is given -/
+theorem tap_len_indep (H : Bytes → Bytes) (hsha : ∀ b, H b ≠ []) (tx : Wire.Tx) (spent : List Wire.TxOut) (c : Cache)
+    (a : Option Bytes) (l : Bytes) (cs idx ht : Nat) (s : Bool) :
+    ((((taprootSigHash true H tx spent c { annexHash := a, tapleafHash := l, codesepPos := cs } idx ht s).1.digest?).getD []).length == 0) =
+    ((((taprootSigHash true H tx spent c { annexHash := none, tapleafHash := l, codesepPos := cs } idx ht s).1.digest?).getD []).length == 0) := by
+  unfold taprootSigHash
+  simp only []
+  split
+  · rfl
+  · split
+    · rfl
+    · unfold taprootTail
+      simp only []
+      split
+      · rfl
+      · split
+        · rfl
+        · simp [Res.digest?, hlen0 H hsha]
+
+/-- the crypto instance whose three signature-digest answers are property C02's MODEL of gocoin's `Tx.SignatureHash`,
+    `Tx.WitnessSigHash` and `Tx.TaprootSigHash` (as fixed) on the transaction `F`, each query finding the per-transaction
+    hash cache in a state of its own (`cw`, `ct`: the cache is filled by earlier queries, possibly of other inputs);
+    "no digest" (nil / panic) is the empty string, the double hash is SHA-256 twice -/
+def c02Instance (T0 : TotalOracles) (F : FullTx) (cw : Bytes → Nat → Cache)
+    (ct : Option Bytes → Bytes → Nat → Nat → Bool → Cache) : TotalOracles :=
+  { T0 with
+    hash256 := fun b => T0.sha256 (T0.sha256 b)
+    sigHashLegacy := fun sc ht => ((signatureHash T0.sha256 F.tx sc F.idx ht).digest?).getD []
+    sigHashWitV0 := fun sc ht => ((witnessSigHash T0.sha256 F.tx (cw sc ht) sc F.amount F.idx ht).1.digest?).getD []
+    sigHashTap := fun a l cs ht s =>
+      ((taprootSigHash true T0.sha256 F.tx F.spent (ct a l cs ht s)
+          { annexHash := a, tapleafHash := l, codesepPos := cs } F.idx ht s).1.digest?).getD [] }
+
+theorem c02Instance_isRef (T0 : TotalOracles) (F : FullTx) (cw : Bytes → Nat → Cache)
+    (ct : Option Bytes → Bytes → Nat → Nat → Bool → Cache) (w : List Bytes)
+    (hs : F.spent.length = F.tx.ins.length) (hi : F.idx < F.tx.ins.length)
+    (hcw : ∀ sc ht, Cache.OK T0.sha256 F.tx F.spent (cw sc ht))
+    (hct : ∀ a l cs ht s, Cache.OK T0.sha256 F.tx F.spent (ct a l cs ht s)) :
+    SigHashIsRef (c02Instance T0 F cw ct) F w := by
+  refine ⟨?_, ?_, ?_⟩
+  · intro sc ht d h
+    have := c02_legacy_is_ref T0.sha256 F sc ht d h
+    show ((signatureHash T0.sha256 F.tx sc F.idx ht).digest?).getD [] = d
+    rw [this]; rfl
+  · intro sc ht d h
+    have := c02_witV0_is_ref T0.sha256 F hi (cw sc ht) (hcw sc ht) sc ht
+    show ((witnessSigHash T0.sha256 F.tx (cw sc ht) sc F.amount F.idx ht).1.digest?).getD [] = d
+    rw [this]
+    have h' : witV0Digest (fun b => T0.sha256 (T0.sha256 b)) F sc ht = some d := h
+    rw [h']; rfl
+  · intro l c h s
+    exact c02_tap_is_ref T0.sha256 F hs hi _ (hct _ l c h s) (annexOf w) l c h s
+
+theorem c02Instance_tapOk (T0 : TotalOracles) (F : FullTx) (tx : TxCtx) (cw : Bytes → Nat → Cache)
+    (ct : Option Bytes → Bytes → Nat → Nat → Bool → Cache) (hc : Consistent F tx) (hsha : ∀ b, T0.sha256 b ≠ [])
+    (hct : ∀ a l cs ht s, Cache.OK T0.sha256 F.tx F.spent (ct a l cs ht s)) :
+    TapSigHashOk (c02Instance T0 F cw ct) tx := by
+  intro a l csp ht scr
+  show ((((taprootSigHash true T0.sha256 F.tx F.spent (ct a l csp ht scr)
+          { annexHash := a, tapleafHash := l, codesepPos := csp } F.idx ht scr).1.digest?).getD []).length == 0) = _
+  rw [tap_len_indep T0.sha256 hsha]
+  have := c02_tap_is_ref T0.sha256 F hc.spent hc.inRange _ (hct a l csp ht scr) none l csp ht scr
+  simp only [Option.map_none] at this
+  rw [this]
+  exact tapDigest_defined T0.sha256 hsha F tx hc none l csp ht scr
+
+end C02Instance
 
 end GocoinV.Proofs.C01
